@@ -103,6 +103,8 @@ def run(env, tier, seed, broken=None):
             want[cid] = ('RStrayReturn', PRE_LINES + 6 + k + 1)
     param_faults = [('%s nv;\n%s nv = 5;' % (VAR, VAR), 'RRedeclare', 1), ('%s nw = %s;\n%s nw;' % (VAR, NIL, VAR), 'RRedeclare', 1),
                     ('%s fq(pa, pb) {\n  %s pa = 5;\n  %s "after-in";\n}\nfq(1, 2);' % (FUN, VAR, PRINT), 'RRedeclare', 1), ('%s fr() {\n  %s fr = 5;\n  %s "after-in";\n}\nfr();' % (FUN, VAR, PRINT), 'RRedeclare', 1)]
+    param_faults += [('%s nn = [1,\n  2,\n  3], mm = [4], nn = [5];' % VAR, 'RRedeclare', 2), ('%s oo = {k: 1,\n  j: 2}, oo = {};' % VAR, 'RRedeclare', 1),
+                     ('%s q1 = [1,\n 2], q2 = [3,\n nope], q3 = [5];' % VAR, 'RUndefinedVar', 2), ('%s r1 = [1,\n 2], r2 = [1 / 0], r3 = [5];' % VAR, 'RDivZero', 1)]
     for st, kind, off in param_faults:
         cid = 'm%d' % n; n += 1
         cases.append({'id': cid, 'src': PRE + st + '\n' + POST, 'stdin': 'in1\nin2\n', 'timeout_ms': 2500})
